@@ -264,12 +264,12 @@ func isPerArgFunc(fn *ssa.Function) bool {
 
 // (4) call_argument_directives_with_null decides whether an absent argument skips the directives, and nothing else does.
 func genArgAbsentRespectsSetting(c *Ctx) {
-	c.R.Rule("arg-absent-respects-setting", "generated per-argument functions: the path context (and with it every argument directive) is entered only when the argument is present — iff call_argument_directives_with_null is false in the configuration that was materialised", 10)
+	c.R.Rule("arg-absent-respects-setting", "generated per-argument functions: the path context (and with it every argument directive) is entered only when the argument is present — for field arguments iff call_argument_directives_with_null is false in the configuration that was materialised, for directive arguments always (arguments without directives are not judged)", 3)
 	for _, g := range c.Gen {
 		setting := c.cfgBool(g, "call_argument_directives_with_null")
 		for _, fn := range c.genFuncs(g) {
-			if !isPerArgFunc(fn) || strings.HasSuffix(fn.Name(), "_args") {
-				continue
+			if !isPerArgFunc(fn) || strings.HasSuffix(fn.Name(), "_args") || len(fn.AnonFuncs) == 0 {
+				continue // without directive literals there is nothing the setting could skip
 			}
 			var rawArgs *ssa.Parameter
 			for _, p := range fn.Params {
@@ -292,7 +292,8 @@ func genArgAbsentRespectsSetting(c *Ctx) {
 					}
 				}
 				key := "gen:" + g.Name + "/" + fn.Name() + "/absent"
-				if setting {
+				// the option is copied to field arguments only (codegen/args.go); arguments of directives keep the default
+				if setting && strings.HasPrefix(fn.Name(), "field_") {
 					c.R.Check(!guarded, key, c.ipos(call), "directives run for an absent argument (call_argument_directives_with_null: true)", "call_argument_directives_with_null is true but an absent argument returns before the directives: they are skipped for omitted arguments")
 				} else {
 					c.R.Check(guarded, key, c.ipos(call), "an absent argument returns the zero value before any directive", "call_argument_directives_with_null is false but the early return for an absent argument is missing: argument directives run (and may inject a value) for an omitted argument")
@@ -399,6 +400,22 @@ func genStreamClosedReturnsNil(c *Ctx) {
 					sel, ok := in.(*ssa.Select)
 					if !ok {
 						continue
+					}
+					// the receive from the resolver's channel (not a Done() channel) must look at its ok result
+					hasRecv := false
+					for _, st := range sel.States {
+						if st.Dir == types.RecvOnly && !an.IsDoneChan(st.Chan) {
+							hasRecv = true
+						}
+					}
+					okUsed := false
+					for _, r := range an.Referrers(sel) {
+						if ex, ok := r.(*ssa.Extract); ok && ex.Index == 1 && len(an.Referrers(ex)) > 0 {
+							okUsed = true
+						}
+					}
+					if hasRecv && !okUsed {
+						c.R.Bad("gen:"+g.Name+"/"+topFn(fn).Name()+"/closed-channel", c.ipos(sel), "the receive from the resolver's channel ignores its ok result: once the resolver closes the channel every call yields a zero value, an endless run of phantom events and never a completion")
 					}
 					// recvOk is Extract #1
 					for _, r := range an.Referrers(sel) {
@@ -616,6 +633,9 @@ func genDeferredFieldNotInInitial(c *Ctx) {
 				if _, ok := v.(*ssa.Phi); ok {
 					return true // dfs := existing-or-new
 				}
+				if _, ok := v.(*ssa.Lookup); ok {
+					return true
+				}
 				if ex, ok := v.(*ssa.Extract); ok {
 					_, isLk := ex.Tuple.(*ssa.Lookup)
 					return isLk
@@ -626,6 +646,9 @@ func genDeferredFieldNotInInitial(c *Ctx) {
 							if _, isLk := ex.Tuple.(*ssa.Lookup); isLk {
 								return true
 							}
+						}
+						if _, isLk := an.Strip(st.Val).(*ssa.Lookup); isLk {
+							return true
 						}
 					}
 				}
